@@ -377,6 +377,8 @@ def replay(ob, res):
     obs = _run()
     if obs.get("failing") and "endpoint answers 'ERROR" in str(obs["failing"].get("what")):
         return {"reproduced": False, "note": "only the recorded known finding (bare ERROR line) fails in the bounded search"}
-    if obs.get("failing"):
+    from pyvc.replay import failing_of
+    if failing_of(obs):
+        obs = dict(obs, failing=failing_of(obs))
         return {"reproduced": True, "call": "AWSElastiCacheHashClient(...) / reconfigure_nodes() sequences", "input": obs["failing"], "cases_tried": obs.get("cases")}
     return {"reproduced": False, "searched": obs}
